@@ -305,6 +305,14 @@ func (f *Frame) stdModel(in ssa.Instruction, callee *ssa.Function, cc *ssa.CallC
 		g := c.heapGet(st, ghostCanUnread, ArrSort(SInt, SBool))
 		c.setHeap(st, ghostCanUnread, c.define("ghost", Store(g, args[0][0], TFalse)))
 		return nil, false // fall through to the generic treatment of the call
+	case "unicode.IsControl":
+		c.note("assumed", "assumed contract: unicode.IsControl(r) for r < 256 <=> r < 0x20 || 0x7f <= r < 0xa0")
+		r := args[0][0]
+		if !c.declared["ext_isControl"] {
+			c.declared["ext_isControl"] = true
+			c.emit("(declare-fun ext_isControl (Int) Bool)")
+		}
+		return []Term{Ite(And(Ge(r, IntLit(0)), Lt(r, IntLit(256))), Or(Lt(r, IntLit(32)), And(Ge(r, IntLit(127)), Lt(r, IntLit(160)))), app(SBool, "ext_isControl", r))}, true
 	case "strings.ToUpper", "strings.ToLower", "strings.TrimSpace":
 		r := c.fresh(callee.Name(), SStr)
 		c.note("assumed", "assumed contract: "+name+" (result unconstrained)")
